@@ -3,7 +3,6 @@ package h_ipamsim
 import (
 	"context"
 	"fmt"
-	"strings"
 	"testing"
 	"testing/synctest"
 	"time"
@@ -26,7 +25,7 @@ func run(r *core.R) {
 	r.FaultDecl("conflict", "error_before", "crash_before", "crash_after", "clock_jump", "stall")
 	r.ProbeDecl("affinity_confirmed", "released", "reused_after_cooldown", "block_created", "block_deleted", "borrowed_from_non_affine_block",
 		"autoassign_acked", "autoassign_empty", "assignip_acked", "observed_release_rejected", "handle_tainted_by_fault", "restart", "liveness_checked",
-		"concurrent_same_host")
+		"concurrent_same_host", "reclaim_of_foreign_empty_block_started", "owner_revives_claim_marked_for_deletion")
 	w := newWorld(r)
 	w.or = newOracle(w)
 	w.st.OnWrite = append(w.st.OnWrite, w.or.onWrite)
@@ -119,8 +118,9 @@ func run(r *core.R) {
 		pJump = 40 + src.Intn(100, "p_jump_c")
 	}
 	w.s.Stall = func(q *sched.Request) int {
-		// a slow node: hold back a write on a block-affinity object (claim, confirm, release) for a while
-		if w.contention && q.Write && strings.Contains(q.Key, "/host/") && src.Chance(200, "stall_claim") {
+		// a slow node: hold back a write (block, affinity or handle: the steps of a claim, confirm, reclaim or
+		// release) while the other hosts carry on
+		if w.contention && q.Write && src.Chance(150, "stall_claim") {
 			return src.Range(3, 40, "stall_len")
 		}
 		return 0
